@@ -149,8 +149,6 @@ pub struct FsCtl {
     pub sys_armed: bool,
     /// (call class, path) of every counted notification
     pub sys_trace: Vec<(&'static str, PathBuf)>,
-    /// fault placements may also fail a directory listing (opendir)
-    pub sys_fail_listings: bool,
 }
 
 /// Everything a scenario can control through the hooks.
@@ -361,9 +359,9 @@ extern "C" fn shim_cb(op: *const libc::c_char, a: *const libc::c_char, b: *const
         std::process::abort();
     }
     // fault placements at system-call granularity: FaultSpec { site: "sys", first_occ = n, burst }
-    // (a listing is never failed here, also not inside a burst: see DESIGN, C19 (d))
-    // unless the scenario allows it (FXV_OPENDIR_FAULTS=1 lifts it everywhere, for investigations)
-    if (op != "sys:opendir" || g.sys_fail_listings || std::env::var_os("FXV_OPENDIR_FAULTS").is_some()) && g.faults.iter().any(|f| f.site.starts_with("sys:") && n >= f.first_occ && n < f.first_occ + f.burst) {
+    // (a listing is failed only by a placement that starts at a listing, not inside the burst of
+    // another call)
+    if g.faults.iter().any(|f| f.site.starts_with("sys:") && n >= f.first_occ && n < f.first_occ + f.burst && (op != "sys:opendir" || f.site == "sys:opendir")) {
         // recorded under the name of the hook site the call corresponds to
         let site = match op {
             "sys:rename" | "sys:link" => "rename",
